@@ -1,6 +1,8 @@
 """C08 — client-side trial caches never serve a view that differs from the backend.
 
-prove:      Props/C08.lean — invariant `cache_covers` of `_CachedStorage` / `GrpcClientCache` preserved by every
+prove:      Props/C08Gen.lean — the method bodies of both caches regenerated from the source as a statement IR (T-cache), the
+            interpreter proved equal to the hand model method by method, the theorems below restated for it;
+            Props/C08.lean — invariant `cache_covers` of `_CachedStorage` / `GrpcClientCache` preserved by every
             backend step of any client and by every critical section; `sync_then_equal`, `finished_never_stale`,
             `order_by_number`, number/name/directions memo, `servicer_filter_eq_rdb_filter`, every critical section
             keeps the invariant (thread interleavings at lock granularity), the system theorem
@@ -27,6 +29,7 @@ os.environ.setdefault("GRPC_VERBOSITY", "NONE")  # transport chatter ("Got goawa
 
 from verif import core, fleet  # noqa: E402
 from verif import storage_k as K  # noqa: E402
+from verif.props import c08_gen  # noqa: E402
 
 RULE = (
     "a case = (database kind, 2-4 clients of kinds raw/_CachedStorage/GrpcStorageProxy[servicer on the storage | on one "
@@ -212,6 +215,7 @@ class Runner:
         self.log: list[list[Any]] = []
         self.reused = False
         self.events: list[dict[str, Any]] = []  # known-finding hits (history goes on)
+        self.gen_first: dict[str, Any] | None = None  # first step on which the generated interpreter and the hand model differ
         self.stats = {"writers": set(), "cache_served": 0, "out_of_order_finish": 0, "reads": 0, "sweeps": 0, "internals": 0,
                       "internals_unavailable": 0, "filter_probes": 0, "foreign_delete": 0}
         self.hist: dict[str, int] = {}
@@ -238,6 +242,8 @@ class Runner:
         resp = self.drv.ask({"cmd": "call", "node": node, "op": K.to_driver(op, impl_raised=impl_raised)})
         if "out" not in resp:
             raise core.DriverBroken("driver cache rejected %s: %s" % (json.dumps(op)[:200], resp))
+        if c08_gen.gen_disagreement(resp) is not None and self.gen_first is None:
+            self.gen_first = {"at": len(self.log), "node": node, "op": op, "gen": resp["gen"]}
         return resp
 
     # -- one step
@@ -396,6 +402,9 @@ class Runner:
             except AttributeError:
                 return
         m = self.drv.ask({"cmd": "filter", "which": op["which"], "sid": op["sid"], "inc": op["inc"], "w": w})
+        g = m.pop("gen", None)
+        if g is not None and self.gen_first is None:
+            self.gen_first = {"at": len(self.log), "node": node, "op": op, "gen": g}
         if m != obs:
             # the selected set differs from {id in included or id > watermark}: that IS the incremental-fetch mechanism
             raise Fail("property", {"kind": "fetch-filter", "which": op["which"], "base": self.base},
@@ -507,7 +516,7 @@ def run_case(base: str, kinds: list[dict[str, Any]], seed: int, n_ops: int, drv:
         run.close()
     st = run.stats
     res.update({
-        "ops": run.log, "events": run.events, "hist": run.hist, "reused": run.reused,
+        "gen": run.gen_first, "ops": run.log, "events": run.events, "hist": run.hist, "reused": run.reused,
         "stats": {k: (len(v) if isinstance(v, set) else v) for k, v in st.items()},
         "nontrivial": len(st["writers"]) >= 2 and st["cache_served"] >= 1 and st["out_of_order_finish"] >= 1,
     })
@@ -533,7 +542,7 @@ def known_c08() -> list[dict[str, Any]]:
 
 def _worker(args: tuple[list[tuple[str, list[dict[str, Any]], int, int, Any]], str, list[dict[str, Any]]]) -> list[dict[str, Any]]:
     cases, tmp, known = args
-    drv = core.Driver("cache")
+    drv = core.Driver(c08_gen.DRIVER)
     out = []
     try:
         for base, kinds, seed, n_ops, ops in cases:
@@ -588,6 +597,12 @@ def explore(chk: core.Check, n_cases: int, n_ops: tuple[int, int], procs: int = 
         chk.count("clients:" + "+".join(sorted(k["kind"] + ("@cached" if k.get("server") is not None else "") for k in case["kinds"])))
         for ev in res.get("events", []):
             chk.violation(ev["signature"], {"base": case["base"], "kinds": case["kinds"], "ops": res["ops"][: ev["at"]]}, ev["msg"])
+        if res.get("gen") and not chk.extra.get("gen_disagreement_reported"):
+            chk.extra["gen_disagreement_reported"] = True
+            g = res["gen"]
+            chk.broke("correspondence", {"what": "interpreter of the generated method bodies (Generated/CacheMethods.lean) differs from the hand model (Model/Cache.lean)",
+                                         "first": g["gen"], "node": g["node"], "op": g["op"], "base": case["base"], "kinds": case["kinds"],
+                                         "ops": res["ops"][: g["at"] + 1][-40:], "seed": case["seed"]})
         if res["ok"]:
             chk.case({"base": case["base"], "kinds": case["kinds"], "ops": res["ops"]}, nontrivial=res["nontrivial"])
             chk.traces_validated += 1
@@ -626,7 +641,7 @@ FD_OPS = [
 
 def replay_witnesses(chk: core.Check) -> None:
     known = known_c08()
-    drv = core.Driver("cache")
+    drv = core.Driver(c08_gen.DRIVER)
     try:
         # (1) the F6 history on today's code: must be clean (the Lean theorem create_finished_template_repaired)
         res = run_case("sqlite", F6_KINDS, 0, 0, drv, chk.tmp, known, ops=F6_OPS)
@@ -795,11 +810,14 @@ def search(chk: core.Check) -> None:
 
 def main(chk: core.Check) -> int:
     chk.rule = RULE
+    c08_gen.regenerate(chk)   # T-cache: the method bodies as statement IR (Generated/CacheMethods.lean)
     if not getattr(chk, "no_prove", False):
-        chk.prove()
+        chk.prove(["OptunaVerif.Props.C08", c08_gen.MODULE])
+        c08_gen.explain_proof_failure(chk)
     quick = chk.tier == "quick"
     try:
         core.ensure_driver()
+        c08_gen.differential(chk, 300 if quick else 6000)
         replay_witnesses(chk)
         thread_race_witness(chk)
         explore(chk, 300 if quick else 4000, (10, 40) if quick else (10, 110))
@@ -826,7 +844,7 @@ def replay(chk: core.Check, path: str) -> int:
         print("not reproduced")
         return 0
     core.ensure_driver()
-    drv = core.Driver("cache")
+    drv = core.Driver(c08_gen.DRIVER)
     try:
         res = run_case(w["base"], w["kinds"], 0, 0, drv, chk.tmp, [], ops=w["ops"])
     finally:
